@@ -49,6 +49,11 @@ var insertComments = []string{
 	"// TODO(a.b+c@d): y\n", "//todo:::\n", "/* fixme(x)*/", "// заметка TODO 漢字\n", "/* ünï */", "//TODO\n", "/***/", "// #\n", "/*#*/",
 }
 
+func init() {
+	// the boundary shapes of the unit generator (text lengths around the markers, assignee brackets, nesting)
+	insertComments = append(insertComments, commentShapes[20:]...)
+}
+
 var renameStyles = []func(old string, k int) string{
 	func(old string, k int) string { return old + "_r" },
 	func(old string, k int) string { return "ünï" + old },
@@ -60,6 +65,9 @@ var renameStyles = []func(old string, k int) string{
 	},
 	func(old string, k int) string { return "変数" + string(rune('a'+k)) },
 	func(old string, k int) string { return "record" + string(rune('A'+k)) },
+	// boundary names: exactly a prefix the tool looks for, a single character
+	func(old string, k int) string { return []string{"get", "set", "is", "of", "main", "test"}[k%6] },
+	func(old string, k int) string { return []string{"$", "g", "Test", "Util", "$$", "s"}[k%6] },
 }
 
 func rewriteWith(op, text string, pick func(n int) int) string {
@@ -132,14 +140,42 @@ func rewriteWith(op, text string, pick func(n int) int) string {
 		if len(names) == 0 {
 			return text
 		}
+		// names of methods (declared or called): an identifier followed by "("
+		var callable []string
+		seenCallable := map[string]bool{}
+		for i, t := range toks {
+			if t.typ != parser.JavaLexerIDENTIFIER || seenCallable[t.text] {
+				continue
+			}
+			for j := i + 1; j < len(toks); j++ {
+				if toks[j].typ == parser.JavaLexerWS || toks[j].typ == parser.JavaLexerCOMMENT || toks[j].typ == parser.JavaLexerLINE_COMMENT {
+					continue
+				}
+				if toks[j].text == "(" {
+					seenCallable[t.text] = true
+					callable = append(callable, t.text)
+				}
+				break
+			}
+		}
 		k := 1 + pick(4)
 		mapping := map[string]string{}
 		for n := 0; n < k; n++ {
 			old := names[pick(len(names))]
+			// the boundary names (the last two styles) are drawn more often and then go to a method name
+			style := pick(len(renameStyles) + 4)
+			if style >= len(renameStyles)-2 {
+				if style >= len(renameStyles) {
+					style = len(renameStyles) - 2
+				}
+				if len(callable) > 0 {
+					old = callable[pick(len(callable))]
+				}
+			}
 			if _, done := mapping[old]; done {
 				continue
 			}
-			nw := renameStyles[pick(len(renameStyles))](old, n)
+			nw := renameStyles[style](old, n)
 			if existing[nw] {
 				continue
 			}
